@@ -28,6 +28,12 @@ type childSpec struct {
 }
 
 func clusterMod(name, bind string, peers []string, settle time.Duration) modFunc {
+	return clusterModPP(name, bind, peers, settle, time.Minute)
+}
+
+// clusterModPP: with an explicit push/pull interval. The default (1 min) is used by most scenarios: a short one would
+// mask lost gossip broadcasts by full-state exchanges.
+func clusterModPP(name, bind string, peers []string, settle, pushPull time.Duration) modFunc {
 	return func(o *app.Options) {
 		o.ClusterBindAddr = bind
 		o.ClusterAdvertiseAddr = bind
@@ -35,7 +41,7 @@ func clusterMod(name, bind string, peers []string, settle time.Duration) modFunc
 		o.Peers = peers
 		o.PeerTimeout = peerTimeout
 		o.GossipInterval = 50 * time.Millisecond
-		o.PushPullInterval = time.Minute // (the default; a short one would mask lost gossip broadcasts by full-state exchanges)
+		o.PushPullInterval = pushPull
 		o.ProbeInterval = 300 * time.Millisecond
 		o.ProbeTimeout = 150 * time.Millisecond
 		o.TCPTimeout = 2 * time.Second
